@@ -47,11 +47,13 @@ class AbstractDenseTimeOnlineInterpreter(AbstractOnlineInterpreter, DenseTimeInt
         self.ast.results = self.updateVisitor.results
 
         out = self.ast.var_object_dict[self.ast.out_var]
-        if self.ast.out_var_field:
+        # (when the formula reads another field of the same variable, `out` holds the samples supplied for it, not an object)
+        writes_field = self.ast.out_var_field and self.ast.out_var not in self.ast.free_vars
+        if writes_field:
             setattr(out, self.ast.out_var_field, rob)
 
         self.ast.var_object_dict = self.ast.var_object_dict.fromkeys(self.ast.var_object_dict, [])  #TODO I did not understand it.
-        if self.ast.out_var_field:
+        if writes_field:
             # the object whose field receives the result is not an input: it stays what it is
             self.ast.var_object_dict[self.ast.out_var] = out
 
